@@ -26,6 +26,8 @@ type Engine struct {
 	anon        map[string]int
 	closureIDs  map[string]*Closure
 	iptrs       map[string]*Ptr
+	addrTaken   []*atField
+	addrTakenKeys []string
 	prov        map[string]guardTag
 	initWriters map[string]bool
 	epoch       int
@@ -103,6 +105,7 @@ func LoadPackage(dir string, specFiles []string) (*Engine, error) {
 			}
 		}
 	}
+	e.computeAddrTaken()
 	return e, nil
 }
 
@@ -140,6 +143,16 @@ func (e *Engine) importedPkg(pkg *ssa.Package, name string) *types.Package {
 		if filepath.Base(imp.Path()) == name {
 			return imp
 		}
+	}
+	// indirect dependencies (types that occur in signatures of imported packages)
+	var cands []*types.Package
+	for _, p := range e.prog.AllPackages() {
+		if p.Pkg.Name() == name {
+			cands = append(cands, p.Pkg)
+		}
+	}
+	if len(cands) == 1 {
+		return cands[0]
 	}
 	return nil
 }
@@ -219,7 +232,19 @@ func (e *Engine) VerifyFunc(name string) (*UnitResult, error) {
 	u.entryParams = names
 	env := u.newEnv(st)
 	env.names = names
+	// exclusive(p) clauses first: they decide how *p is read by the others
+	reqs := make([]*Clause, 0, len(fs.Requires))
 	for _, c := range fs.Requires {
+		if _, ok := u.exclusiveExpr(env, c); ok {
+			reqs = append(reqs, c)
+		}
+	}
+	for _, c := range fs.Requires {
+		if _, ok := u.exclusiveExpr(env, c); !ok {
+			reqs = append(reqs, c)
+		}
+	}
+	for _, c := range reqs {
 		if g, ok := c.Expr.(*SEGo); ok {
 			if key, n, ok := u.tokenExpr(env, g); ok {
 				st.tokens[key] += n
@@ -347,6 +372,7 @@ func (u *Unit) checkExit(o Outcome, fs *FuncSpec, params map[string]SV) {
 			u.addOblig(st, "onpanic."+labelOr(c, "onpanic"), c.Text, clauseProps(c, fs), u.evalBool(env, c.Expr), exitInstr, "on panicking exit: "+c.Text)
 		}
 	} else {
+		u.addCover(st, "exit", "exit", "a normal return of the function is reachable")
 		rs := fn.Signature.Results()
 		for i := 0; i < rs.Len() && i < len(o.results); i++ {
 			sv := SV{V: o.results[i], Typ: rs.At(i).Type()}
@@ -364,6 +390,15 @@ func (u *Unit) checkExit(o Outcome, fs *FuncSpec, params map[string]SV) {
 			}
 		}
 		for _, c := range fs.Ensures {
+			if sv, ok := u.ownedExpr(env, c); ok {
+				// the returned slice is nil or backed by an array this activation created and never shared
+				goal := False
+				if u.isPrivateSliceTerm(st, u.lower(st, sv.V, sv.Typ), 0) {
+					goal = True
+				}
+				u.addOblig(st, "post."+labelOr(c, "owned"), c.Text, clauseProps(c, fs), goal, exitInstr, "postcondition: "+c.Text+" (the returned slice is nil or backed by an array private to this activation)")
+				continue
+			}
 			u.addOblig(st, "post."+labelOr(c, "ensures"), c.Text, clauseProps(c, fs), u.evalBool(env, c.Expr), exitInstr, "postcondition: "+c.Text)
 		}
 	}
